@@ -343,8 +343,7 @@ class C08(EHistCheck):
                     errs.append(f"vacuity: no accepted program of the same-named-classes family with shape {sh}")
             if t.get("same-rejected", 0) > t.get("same", 0):
                 errs.append(f"vacuity: {t.get('same-rejected')} programs of the same-named-classes family rejected, {t.get('same', 0)} accepted")
-        if (t.get("fieldname", 0) or t.get("fieldname-rejected", 0)) and t.get("fieldname-rejected", 0) >= t.get("fieldname", 0):
-            errs.append("vacuity: the field-name family is rejected by the compiler")
+        # (a compiler that REFUSES a bare name equal to a field name would also keep the property: the field-name family has no vacuity guard)
         return errs
 
     def run_fieldname(self, case):
